@@ -72,6 +72,11 @@ CHECKS = {
     note='Trusted: z3, transliterator, formal-indeterminate mode (justified by a syntactic field-operations-only test of each kernel). Integrator convergence, B=0 at the centre and B across static-liquid interfaces are outside.',
     technique='Cython source transliteration + symbolic execution (formal indeterminates) + z3 rational-function identities; inductive invariant for reciprocity',
     design='2/C03'),
+ 'C04': dict(
+    text='Bounded SMT validity checking: all nine starting-condition functions are transliterated and executed for a homogeneous sphere; z=x j_{l+1}/j_l and phi_l, phi_{l+1} are atoms with their derivation rules, csqrt an atom with S^2=argument; the r-derivative of each starting vector is obtained by differentiating the encoding and z3 decides that ds/dr - A s lies in span{s_j, s_last} for the matching diffeq (flow-invariance of the span = independence of the start radius); truncated phi/psi/z series equal the exact series as polynomial identities; the driver dispatch table is executed for all flag combinations.',
+    note='Trusted: z3, transliterator, differentiation of the encoding, the Bessel recurrences behind the atom rules. Truncation error of the series beyond their order, scipy spherical_jn and the integrator are outside.',
+    technique='Cython source transliteration + symbolic execution with special-function atoms and derivation rules + z3 (minors of the span condition)',
+    design='2/C04'),
 }
 NOT_YET = {}
 ALL = ['C%02d' % i for i in range(1, 21)]
